@@ -1,8 +1,2 @@
-import CnlDriver.CS
-/-! `C07` driver table (stub). -/
-namespace Cnl.Drv
-open Cnl
-
-def checkC07 (_toks : List String) (_res : String) : Option Verdict := none
-
-end Cnl.Drv
+import CnlDriver.C06
+/-! `C07` table lives in CnlDriver.C06 (same cases, different oracle). -/
